@@ -155,13 +155,62 @@ let store_end () =
 
 let unmodelled_any = ref false
 
+(* ---- concurrent cases (C16) ---- *)
+let conc_mode = ref false
+let conc_phases : ((z * request list) * label list) list Stdlib.ref = ref []   (* reversed *)
+let cur_gap = ref Z0
+let cur_reqs : request list Stdlib.ref = ref []
+let parse_label (t : string) : label =
+  let n = int_of_string (String.sub t 1 (String.length t - 1)) in
+  let rec nat_of k = if k <= 0 then O else S (nat_of (k - 1)) in
+  if t.[0] = 'f' then F (nat_of n) else B (nat_of n)
+let rec int_of_nat = function O -> 0 | S k -> 1 + int_of_nat k
+let label_str = function F i -> Printf.sprintf "f%d" (int_of_nat i) | B j -> Printf.sprintf "b%d" (int_of_nat j)
+
+let conc_end () =
+  if !unmodelled then print_endline (Printf.sprintf "CX %s 0 U" !case_id)
+  else begin
+    let phs = List.rev !conc_phases in
+    let obs = run_phases (effective_swr_timeout !case_cfg) phs (init_world !case_t0 (List.rev !case_script)) in
+    List.iteri (fun pi (o : phase_obs) ->
+      let buf = Buffer.create 512 in
+      Buffer.add_string buf (Printf.sprintf "CX %s %d %d" !case_id pi (List.length o.po_results));
+      List.iter (fun r ->
+        match r with
+        | Some (Done (OResp r)) ->
+            Buffer.add_string buf (Printf.sprintf " R %s %s %d" (dec_of_z r.p_status) (dec_of_z r.p_body) (if r.p_body_ok then 1 else 0));
+            pr_headers buf r.p_hdr
+        | Some (Done OErr) -> Buffer.add_string buf " E"
+        | Some (Done OPanic) | Some Crashed -> Buffer.add_string buf " P"
+        | Some OutOfModel -> Buffer.add_string buf " U"
+        | None -> Buffer.add_string buf " W") o.po_results;
+      Buffer.add_string buf (Printf.sprintf " %d" (List.length o.po_trace));
+      List.iter (fun (l, ev) -> Buffer.add_string buf (" " ^ label_str l); pr_event buf ev) o.po_trace;
+      Buffer.add_string buf (Printf.sprintf " | performed=%d quiescent=%b bg_ok=%b" (int_of_nat o.po_performed) o.po_quiescent o.po_bg_ok);
+      print_endline (Buffer.contents buf)) obs
+  end
+
 let handle_line line =
   let c = mk line in
   if Array.length c.toks = 0 then () else
   match next c with
   | "CASE" ->
       case_id := next c; ignore (next c); case_cfg := next_z c; case_t0 := next_z c;
-      case_reqs := []; case_script := []; unmodelled := false; unmodelled_any := false
+      case_reqs := []; case_script := []; unmodelled := false; unmodelled_any := false; conc_mode := false
+  | "CCASE" ->
+      case_id := next c; ignore (next c); case_cfg := next_z c; case_t0 := next_z c;
+      case_reqs := []; case_script := []; unmodelled := false; unmodelled_any := false;
+      conc_mode := true; conc_phases := []; cur_reqs := []
+  | "PHASE" ->
+      cur_gap := next_z c; cur_reqs := []
+  | "SCHED" ->
+      let n = next_int c in
+      let ls = rep n (fun () -> parse_label (next c)) in
+      conc_phases := ((!cur_gap, List.rev !cur_reqs), ls) :: !conc_phases
+  | "REQ" when !conc_mode ->
+      (match parse_req c with
+       | Some (_, r) -> cur_reqs := r :: !cur_reqs
+       | None -> unmodelled := true)
   | "REQ" ->
       (match parse_req c with
        | Some r -> case_reqs := r :: !case_reqs
@@ -180,6 +229,8 @@ let handle_line line =
       case_script := ((delay, r1), r2) :: !case_script
   | "END" when !store_kind <> "" ->
       store_end (); store_kind := ""
+  | "END" when !conc_mode ->
+      conc_end (); conc_mode := false
   | "END" ->
       if !unmodelled then print_endline (Printf.sprintf "X %s 0 0 0 U 0 1 0" !case_id)
       else begin
